@@ -1569,8 +1569,27 @@ def _every_commit_continues(kinds):
     return check
 
 
+def _cps_starts_first_task(ctx):
+    """C02 (redelivery never changes the result): one ContinueParentStage arrives per finished before-stage, so the handler
+    runs several times for one stage; every run may only (re-)issue StartTask for the stage's FIRST task -- a duplicate of
+    that message is absorbed by the StartTask status guard, whereas StartTask for a later task would run it out of order,
+    before the first task has produced its result."""
+    I = ctx.I
+    stage = loaded_stage(ctx)
+    if stage is None:
+        return []
+    goals = []
+    tasks = I.getattr(stage, "tasks")
+    for n, (e, g) in enumerate(P.pushes(ctx, "StartTask")):
+        first_id = I.getattr(SElem(tasks.lid, (z3.IntVal(0),)), "id")
+        goals.append((f"push{n}", z3.Implies(g, z3.And(I.ops.list_len(tasks) > 0, I.ops.eq(I.getattr(e.data["msg"], "task_id"), first_id),
+                                                       I.ops.eq(I.getattr(e.data["msg"], "stage_id"), I.getattr(stage, "id"))))))
+    return goals
+
+
 def continue_parent_stage():
     obls = [
+        Obl("C02/order/ContinueParentStage.starts-the-first-task", _cps_starts_first_task, when="any"),
         Obl("C05/T2/ContinueParentStage", _every_commit_continues(("CompleteStage", "StartTask", "StartStage")), when="any"),
         Obl("C05/T2b/ContinueParentStage", P.no_push_after_commit, when="any"),
         Obl("C01/T1/ContinueParentStage", P.t1_processed_with_effects(), when="any"),
